@@ -937,6 +937,97 @@ theorem F18_legacy_non_2xx_counts_as_accepted :
     (∀ e ∈ (legacyPush true [⟨[⟨304, false⟩], [], [], []⟩] []).1, e.isManifest = false) := by
   decide
 
+/-! ### Two legacy pushes sharing one upload -/
+
+/-- a transfer that ended well was settled by a commit answer the code accepts (2xx when `strict`) -/
+theorem sharedTransfer_ok_settled (strict : Bool) (s : Shared) (bLeft : Bool)
+    (h : (sharedTransfer strict s bLeft).2 = some true) :
+    bLeft = false ∧ settled strict 0 (sharedTransfer strict s bLeft).1 := by
+  have hc := triesX_spec 0 3 .put .none (commitOk strict) maxRetries s.commit
+  cases hpost : s.post with
+  | transport => simp [sharedTransfer, hpost] at h
+  | ownerCancelled => simp [sharedTransfer, hpost] at h
+  | answered rs =>
+    cases hm : mrr strict (exchange .post .none rs).2 with
+    | notFound => simp [sharedTransfer, hpost, hm] at h
+    | err => simp [sharedTransfer, hpost, hm] at h
+    | ok r =>
+      by_cases hloc : r.loc = true
+      · by_cases hb : bLeft = true
+        · simp [sharedTransfer, hpost, hm, hloc, hb] at h
+        · cases ha : (triesX 0 2 .patch .stream (patchOk strict) maxRetries s.patch).2 with
+          | none => simp [sharedTransfer, hpost, hm, hloc, hb, ha] at h
+          | some ra =>
+            by_cases hl2 : ra.loc = true
+            · cases hcr : (triesX 0 3 .put .none (commitOk strict) maxRetries s.commit).2 with
+              | none => simp [sharedTransfer, hpost, hm, hloc, hb, ha, hl2, hcr] at h
+              | some rc =>
+                obtain ⟨hok, m', hm'⟩ := hc.2 rc hcr
+                obtain ⟨h1, h2⟩ := commitOk_spec strict rc hok
+                refine ⟨by simpa using hb, ?_⟩
+                simp only [sharedTransfer, hpost, hm, hloc, hb, ha, hl2, Bool.not_true, Bool.false_eq_true, if_false]
+                exact ⟨3, m', rc.status, by simp [hm'], Or.inr rfl, h1, h2⟩
+            · simp [sharedTransfer, hpost, hm, hloc, hb, ha, hl2] at h
+      · simp [sharedTransfer, hpost, hm, hloc] at h
+
+/-- **A push that joined a shared upload reports success only if the shared transfer succeeded.**
+    For every way the owner's session POST ends (any answer chain, transport error, the owner's
+    context ending), every script of the PATCH and commit tries, with or without the joiner
+    leaving: if push B joined (its own HEAD said "absent") and `PushModel` B returns nil, then the
+    one transfer was started, ran to its end without error — its log holds the commit answer that
+    settled the layer — and B had not left.  In particular: when `Prepare` fails (the transfer
+    publishes neither `done` nor `err`), a joined push never succeeds and never sends its manifest. -/
+theorem shared_joined_success_only_if_transfer_ok (strict : Bool) (s : Shared)
+    (hj : bJoins strict s = some true) :
+    ((sharedPush strict s).okB = true ∨ ∃ e ∈ (sharedPush strict s).logB, e.isManifest = true) →
+      s.cancelB = false ∧ (sharedTransfer strict s false).2 = some true ∧
+      settled strict 0 (sharedPush strict s).logT := by
+  intro h
+  have hm := legacyManifest_spec strict s.manB
+  have hb : ∀ e ∈ (exchange .head .none s.headB).1.map (fun (q : Method × Nat) => LegEv.req 0 0 q.1 q.2),
+      e.isManifest = false := map_req_not_manifest 0 0 _
+  unfold sharedPush at h ⊢
+  simp only [hj, beq_self_eq_true, Bool.true_and] at h ⊢
+  by_cases hg : (!s.cancelB && (sharedTransfer strict s s.cancelB).2 == some true) = true
+  · simp only [Bool.and_eq_true, Bool.not_eq_true', beq_iff_eq] at hg
+    obtain ⟨hcb, ht⟩ := hg
+    rw [hcb] at ht ⊢
+    exact ⟨rfl, ht, (sharedTransfer_ok_settled strict s false ht).2⟩
+  · exfalso
+    simp only [hg] at h
+    rcases h with h | ⟨e, he, hme⟩
+    · simp at h
+    · simp only [Bool.false_eq_true, if_false, List.append_nil] at he
+      rw [hb e he] at hme; cases hme
+
+/-- the owner: a manifest request of push A, or success of A, only after a transfer that ended
+    well (and A's own context did not end during the POST) -/
+theorem shared_owner_success_only_if_transfer_ok (strict : Bool) (s : Shared) :
+    ((sharedPush strict s).okA = true ∨ ∃ e ∈ (sharedPush strict s).logA, e.isManifest = true) →
+      ∃ bLeft, (sharedTransfer strict s bLeft).2 = some true ∧ settled strict 0 (sharedPush strict s).logT := by
+  intro h
+  unfold sharedPush at h ⊢
+  simp only at h ⊢
+  generalize hbl : (bJoins strict s == some true && s.cancelB) = bl at h ⊢
+  by_cases hg : (sharedTransfer strict s bl).2 = some true
+  · exact ⟨bl, hg, (sharedTransfer_ok_settled strict s bl hg).2⟩
+  · exfalso
+    have hf : ((sharedTransfer strict s bl).2 == some true) = false := by simpa using hg
+    rcases h with h | ⟨e, he, hme⟩
+    · simp [hf] at h
+    · simp only [hf, Bool.and_false, Bool.false_eq_true, if_false, List.mem_cons, List.not_mem_nil, or_false] at he
+      rw [he] at hme; cases hme
+
+/-- the seeded-change scenario in the model: the session POST is answered 500 while B has joined:
+    neither push sends a manifest, neither reports success; and a good run for comparison -/
+theorem shared_prepare_failure_witness :
+    (sharedPush false ⟨[⟨404, false⟩], .answered [⟨500, false⟩], false, [], [], [], []⟩).okB = false ∧
+    (sharedPush false ⟨[⟨404, false⟩], .answered [⟨500, false⟩], false, [], [], [], []⟩).logB = [.req 0 0 .head 404] ∧
+    (sharedPush false ⟨[⟨404, false⟩], .answered [⟨500, false⟩], false, [], [], [], []⟩).okA = false ∧
+    (sharedPush false ⟨[⟨404, false⟩], .answered [⟨202, true⟩], false, [[⟨202, true⟩]], [], [], []⟩).okB = true ∧
+    (sharedPush false ⟨[⟨404, false⟩], .answered [⟨202, true⟩], false, [[⟨202, true⟩]], [], [], []⟩).logT =
+      [.req 0 1 .post 202, .req 0 2 .patch 202, .req 0 3 .put 200] := by decide
+
 /-! ### Witnesses of F10 (the model shares these defects with the code).  `D := Bytes`, `H := id`:
     a digest is its pre-image, so "the file hashes to the layer digest" is "file = digest". -/
 
